@@ -26,6 +26,7 @@
 From Coq Require Import String.
 From Coq Require Import List NArith Bool Arith Lia Permutation.
 Import ListNotations.
+From YP Require Import Comp.NumeralName.
 From YP Require Import Base.Str Lang.Ast Lang.Lexer Lang.Cst Lang.Parser Lang.Unquote Lang.Front
   Comp.IR Comp.CompileBody Comp.CompileClause Comp.Emit Comp.PyRepr Comp.Limits Comp.CompileText Cli.Determinism.
 Local Open Scope string_scope.
@@ -175,7 +176,7 @@ Section Gen.
     | Some (p, a') =>
         match compile_groups_g (gord (group_program p)) (snd st) with
         | None => (CRejectFront, (a', snd st))
-        | Some (ir, k') => (finish printable ir, (a', k'))
+        | Some (ir, k') => ((if ir_bad ir then CRejectFront else finish printable ir), (a', k'))
         end
     end.
 
